@@ -238,6 +238,19 @@ func init() {
 					}
 				}
 			}
+			// histories with more distinct timestamps than the parse memo holds (64), then a line whose
+			// timestamp was parsed long ago: the probe behaves as in a fresh copy, whatever was pushed
+			// out of the memo and whatever took its place
+			for _, nh := range []int{63, 64, 65, 66, 100, 130, 200} {
+				var hist []string
+				for k := 0; k < nh; k++ {
+					hist = append(hist, fmt.Sprintf("a 2024-03-04T05:%02d:%02dZ", k/60, k%60))
+				}
+				for _, probeAt := range []int{0, 1, nh / 2, nh - 1} {
+					g.emit("hist", "-", hx(c05Programs[0]), hxs(hist), hx(hist[probeAt]))
+				}
+				g.emit("hist", "-", hx(c05Programs[0]), hxs(append(append([]string{}, hist...), hist[0], hist[1])), hx(hist[0]))
+			}
 			n := 300
 			if g.thorough() {
 				n = 5000
